@@ -168,6 +168,11 @@ class InMemoryStorage(BaseStorage):
             trial._trial_id = trial_id
             self._trial_id_to_study_id_and_number[trial_id] = (study_id, trial.number)
             self._studies[study_id].trials.append(trial)
+            if template_trial is not None:
+                # Parameters recorded through a template take part in later compatibility checks,
+                # as they do on the RDB and journal storages.
+                for name, distribution in trial.distributions.items():
+                    self._studies[study_id].param_distribution.setdefault(name, distribution)
             self._update_cache(trial_id, study_id)
             return trial_id
 
